@@ -69,7 +69,7 @@ def acceptedRaise (j : Journal) : Bool :=
    !j.any (fun e => match e.call with | .terminateInstances _ => true | _ => false) &&
    ((j.filter Spec.isAttachEntry).getLast?.map (·.ok)) == some true)
 
-def monitorsWant (c : Spec.Ctx) (obsDelta : Int) (j : Journal) (fatalHere : Bool) : List String :=
+def monitorsWant (c : Spec.Ctx) (obsDelta : Int) (j : Journal) (fatalHere : Bool) (stillTainted : List String := []) : List String :=
   let unt : Int := Spec.untaintedCount c
   let want : Int := if unt < c.st.minEff then c.st.minEff - unt else obsDelta
   (if fatalHere then [] else (Spec.decisionBad c obsDelta).flatMap (fun t => ["C06|" ++ t, "C13|" ++ t])) ++
@@ -81,8 +81,9 @@ def monitorsWant (c : Spec.Ctx) (obsDelta : Int) (j : Journal) (fatalHere : Bool
   (if fatalHere then [] else (Spec.C10.holdbackBad c obsDelta j).map (fun t => "C10|" ++ t)) ++
   (if Spec.C07.amountHolds c want j then [] else ["C07|amount", "C05|compose"]) ++
   (if Spec.C07.amountHolds c (want + 1000000000) j then [] else ["C17|a SetDesiredCapacity of a scale-up does not raise the desired size the cloud holds (request not current + d)"]) ++
-  (if fatalHere then [] else (Spec.C07.shortfall c want j).flatMap (fun t => ["C07|remainder-not-requested: " ++ t, "C05|brought-too-few: " ++ t] ++
-    (if unt < c.st.minEff then ["C03|below min_nodes and no cool-down running, but capacity is not restored: " ++ t] else []))) ++
+  (if fatalHere then [] else (Spec.C07.shortfall c want j stillTainted).flatMap (fun t => ["C07|remainder-not-requested: " ++ t, "C05|brought-too-few: " ++ t] ++
+    (if unt < c.st.minEff then ["C03|below min_nodes and no cool-down running, but capacity is not restored: " ++ t]
+     else ["C06|the decision is to add " ++ toString want ++ " node(s), but capacity is not added: " ++ t]))) ++
   (if fatalHere then [] else (Spec.C06.bad c j ++ Spec.C06.badStarve c obsDelta j ++ Spec.C06.badMaxAge c obsDelta j).map (fun t => "C06|" ++ t)) ++
   (if fatalHere then [] else (Spec.C05.badScaleUp c obsDelta).map (fun t => "C05|" ++ t))
 
@@ -163,6 +164,16 @@ def handleScan (ds : DState) (sc : ScanCase) : DState × Json :=
       match ns with
       | [] => acc
       | x :: rest => (ob.name, if rest.all (· == x) then x else (-1, -1)) :: acc.filter (fun p => p.1 != ob.name)) ds.seen
+    -- C15 on the observed journals, paired with the recorded responses (ordered calls only)
+    let isOrdered (e : Entry) : Bool := match e.call with | .describeInstances _ => false | _ => true
+    let allObs : List (String × Entry) := sc.obs.pre.map (fun e => ("", e)) ++ sc.obs.recs.flatMap (fun r => r.j.map (fun e => (r.name, e)))
+    let paired : List (String × Entry × Resp) :=
+      (allObs.foldl (fun (acc : List (String × Entry × Resp) × List Resp) (ge : String × Entry) =>
+        if isOrdered ge.2 then
+          match acc.2 with
+          | r :: rs => (acc.1 ++ [(ge.1, ge.2, r)], rs)
+          | [] => (acc.1 ++ [(ge.1, ge.2, Resp.fail)], [])
+        else (acc.1 ++ [(ge.1, ge.2, Resp.fail)], acc.2)) ([], sc.resps)).1
     -- monitors on the observed journals; contexts follow the model's state evolution group by group
     let mons : List String :=
       sc.obs.recs.flatMap (fun ob =>
@@ -175,10 +186,14 @@ def handleScan (ds : DState) (sc : ScanCase) : DState × Json :=
           | none => []
           | some ctx =>
             let fatalHere := sc.obs.outcome != "ok" && (sc.obs.recs.getLast?.map (·.name)) == some ob.name
+            -- nodes whose fetched copy (GET accepted) still carried the escalator taint: only an accepted UPDATE untaints them
+            let stillTainted : List String := (paired.filter (fun t => t.1 == ob.name)).filterMap (fun t => match t.2.1.call, t.2.2 with
+              | .getNode _, .node nd => if t.2.1.ok && hasTaint escKey nd then some nd.name else none
+              | _, _ => none)
             let m05 := if fatalHere || seen'.lookup ob.name == some (-1, -1) then [] else
               (Spec.C05.badFromZero ctx (seen'.lookup ob.name) ob.delta).flatMap (fun t =>
                 ["C05|" ++ t] ++ (if ctx.view.nodes.any (·.unschedulable) then ["C09|cordoned-node-in-view:" ++ t] else []))
-            (monitors ctx ob.j (fatalHere && sc.obs.outcome == "fatal:not-in-group") ++ monitorsWant ctx ob.delta ob.j fatalHere ++ m05).map (fun m => match m.splitOn "|" with
+            (monitors ctx ob.j (fatalHere && sc.obs.outcome == "fatal:not-in-group") ++ monitorsWant ctx ob.delta ob.j fatalHere stillTainted ++ m05).map (fun m => match m.splitOn "|" with
             | [p, d] => p ++ ":" ++ ob.name ++ ":" ++ d
             | _ => m ++ ":" ++ ob.name))
     -- which oracles were applicable to this scan (probed with an observation they would have to reject):
@@ -199,16 +214,6 @@ def handleScan (ds : DState) (sc : ScanCase) : DState × Json :=
           (if (Spec.C05.badFromZero ctx (seen'.lookup ob.name) (-5)).isEmpty || seen'.lookup ob.name == some (-1, -1) then [] else ["scale-up-from-zero"]) ++
           (if (Spec.C05.badScaleUp ctx (-5)).isEmpty then [] else ["scale-up-size"]) ++
           (if (Spec.C07.shortfall ctx want []).isEmpty then [] else ["remainder-requested"]))
-    -- C15 on the observed journals, paired with the recorded responses (ordered calls only)
-    let isOrdered (e : Entry) : Bool := match e.call with | .describeInstances _ => false | _ => true
-    let allObs : List (String × Entry) := sc.obs.pre.map (fun e => ("", e)) ++ sc.obs.recs.flatMap (fun r => r.j.map (fun e => (r.name, e)))
-    let paired : List (String × Entry × Resp) :=
-      (allObs.foldl (fun (acc : List (String × Entry × Resp) × List Resp) (ge : String × Entry) =>
-        if isOrdered ge.2 then
-          match acc.2 with
-          | r :: rs => (acc.1 ++ [(ge.1, ge.2, r)], rs)
-          | [] => (acc.1 ++ [(ge.1, ge.2, Resp.fail)], [])
-        else (acc.1 ++ [(ge.1, ge.2, Resp.fail)], acc.2)) ([], sc.resps)).1
     let mon15 : List String := ds.ctl.cfgs.flatMap (fun c =>
       let mine := (paired.filter (fun t => t.1 == c.name)).map (fun t => t.2)
       (Spec.C15.bad (sc.nowReal / 1000000000) c.taintEffect none mine).map (fun n => "C15:" ++ c.name ++ ":" ++ n))
